@@ -145,3 +145,68 @@ Definition column (k : nat) (rows : list (list bool)) : bool := forallb (fun r =
 (** agree, archive rule, pruning rule, paused hands-off, unpause exact, shared object kept, archive rule on inline objects *)
 Definition judge08 (c : dcase) : list bool :=
   let m := monitors08 c in [agree c; column 0 m; column 1 m; column 2 m; column 3 m; column 4 m; column 5 m].
+
+(** * Soundness of the archive and pruning monitors on the model (any hash function, any fault; fresh List,
+      repaired getter): the monitor accepts what the model does. *)
+From Coq Require Import Lia.
+From PKO Require Import BaseProofs DeploymentProofs.
+
+Definition state_of (w : dworld) : ostate := {| st_dep := dw_dep w; st_sets := dw_sets w; st_store := w_store (dw_w w) |}.
+Definition obs_of (w' : dworld) (evs : list dev) (r : dpres) : sobs :=
+  {| so_res := match r with DpDone => OrDone | DpError => OrError end; so_events := evs; so_dep := dw_dep w';
+     so_sets := isort name_lt (dw_sets w'); so_store := w_store (dw_w w'); so_rv := w_rv (dw_w w'); so_uid := w_uid (dw_w w') |}.
+
+Lemma chain_listed w : chain (state_of w) = listed false w.
+Proof.
+  unfold chain, listed, state_of. cbn. f_equal. f_equal. apply filter_ext. intros s. unfold hidden. cbn. now rewrite andb_true_r.
+Qed.
+
+Lemma existsb_Neqb n l : In n l -> existsb (N.eqb n) l = true.
+Proof. intros H. apply existsb_exists. exists n. split; [assumption|apply N.eqb_refl]. Qed.
+
+Lemma after_name_split l1 r l2 : ~ In (sname r) (map sname l1) -> after_name (sname r) (l1 ++ r :: l2) = Some l2.
+Proof.
+  induction l1 as [|x l IH]; cbn; intros H; [now rewrite N.eqb_refl|].
+  destruct (sname x =? sname r) eqn:E; [apply N.eqb_eq in E; elim H; now left|]. apply IH. intros Hin. apply H. now right.
+Qed.
+
+Lemma find_dset_split l1 r l2 : ~ In (sname r) (map sname l1) -> find_dset (l1 ++ r :: l2) (sname r) = Some r.
+Proof.
+  unfold find_dset. induction l1 as [|x l IH]; cbn; intros H; [now rewrite N.eqb_refl|].
+  destruct (sname x =? sname r) eqn:E; [apply N.eqb_eq in E; elim H; now left|]. apply IH. intros Hin. apply H. now right.
+Qed.
+
+Lemma archivable_archive_ok slices w n :
+  NoDup (map sname (dw_sets w)) -> archivable (full_objects slices) (listed false w) n -> archive_ok slices (state_of w) n = true.
+Proof.
+  intros Hnd (l1 & r & l2 & EL & En & Hne & Hsp & Har & Hd). unfold archive_ok, archive_ok_with. rewrite chain_listed, EL, <- En.
+  pose proof (listed_nodup false w Hnd) as HndL. rewrite EL, map_app in HndL. cbn in HndL. apply NoDup_remove_2 in HndL.
+  assert (Hni : ~ In (sname r) (map sname l1)) by (intros H; apply HndL; apply in_or_app; now left).
+  rewrite (find_dset_split _ _ _ Hni), (after_name_split _ _ _ Hni), Hsp. cbn [andb].
+  destruct l2 as [|nx l3]; [now elim Hne|]. cbn [is_nil negb andb].
+  destruct Hd as [(s & Hs & Ha & _)|(Hav & nx' & l3' & act & E & _ & Hact & Hdis)].
+  - assert (existsb is_available (nx :: l3) = true) by (apply existsb_exists; exists s; auto). now rewrite H.
+  - injection E as <- <-. rewrite Hav. cbn [negb andb]. apply orb_true_iff. right.
+    unfold active_objects in Hact. rewrite Har in Hact. destruct (is_nil (os_ctrlof (ds_set r)) && negb (ds_ctrlset r)); [discriminate|].
+    injection Hact as <-. now apply inter_keys_nil.
+Qed.
+
+Theorem monitor_sound_archive hash fault slices rev0ok w w' evs r :
+  NoDup (map sname (dw_sets w)) -> dep_pass hash fault slices true rev0ok false w = (w', evs, r) ->
+  m08_archive slices (state_of w) (SDep false fault) (obs_of w' evs r) = true.
+Proof.
+  intros Hnd Hp. unfold m08_archive, archived_names. cbn [so_events obs_of]. apply forallb_forall. intros n Hn.
+  apply in_flat_map in Hn. destruct Hn as (e & He & Hn). destruct e as [| n0 life pbp ur | |]; try contradiction.
+  destruct life; try contradiction. destruct (effective ur); [|contradiction]. destruct Hn as [<-|[]].
+  apply archivable_archive_ok; [assumption|]. eapply archive_sound_repaired; eauto.
+Qed.
+
+Theorem monitor_sound_gc hash fault slices sliceaware rev0ok w w' evs r :
+  NoDup (map sname (dw_sets w)) -> dep_pass hash fault slices sliceaware rev0ok false w = (w', evs, r) ->
+  m08_gc (state_of w) (SDep false fault) (obs_of w' evs r) = true.
+Proof.
+  intros Hnd Hp. unfold m08_gc, delete_names. cbn [so_events obs_of st_dep state_of]. apply forallb_forall. intros n Hn.
+  apply in_flat_map in Hn. destruct Hn as (e & He & Hn). destruct e as [| | n0 dr |]; try contradiction. destruct Hn as [<-|[]].
+  destruct (gc_sound hash fault slices sliceaware rev0ok false w w' evs r n0 dr Hnd Hp He) as (l0 & newest & EL & Hin & _).
+  rewrite chain_listed, EL, removelast_app_last. apply existsb_Neqb. exact Hin.
+Qed.
